@@ -21,6 +21,18 @@ type c04Cand struct {
 	Ptr   bool   // pointer receiver
 	Iface string // package path of the interface the call goes through ("" if not an invoke)
 	Form  string // direct funcval methodvalue methodexpr closure defer invoke
+	// PerRole: the source-role and the sink-role test call two different functions (Name + "Source" / "Sink")
+	PerRole bool
+}
+
+func (c c04Cand) realName(role string) string {
+	if !c.PerRole {
+		return c.Name
+	}
+	if role == "source" {
+		return c.Name + "Source"
+	}
+	return c.Name + "Sink"
 }
 
 type c04Pattern struct {
@@ -55,6 +67,13 @@ func c04Candidates() []c04Cand {
 			add(c04Cand{Pkg: p, Name: name, Form: "direct"})
 		}
 		add(c04Cand{Pkg: p, Name: "Fetch", Form: "funcval"})
+		add(c04Cand{Pkg: p, Name: "Fetch", Form: "funcvalphiA"})
+		add(c04Cand{Pkg: p, Name: "Fetch", Form: "funcvalphiB"})
+		// candidates that are referenced nowhere else, one function per role: the order in which the pointer
+		// analysis meets the bound method and the candidate is then fixed by the form (A: bound method first,
+		// B: candidate first), whatever else the program contains
+		add(c04Cand{Pkg: p, Name: "FetchLateA", Form: "funcvalphiA", PerRole: true})
+		add(c04Cand{Pkg: p, Name: "FetchLateB", Form: "funcvalphiB", PerRole: true})
 		add(c04Cand{Pkg: p, Name: "Fetch", Form: "closure"})
 		add(c04Cand{Pkg: p, Name: "Fetch", Form: "defer"})
 		add(c04Cand{Pkg: p, Name: "Fetch", Recv: "Store", Form: "direct"})
@@ -145,7 +164,7 @@ func (p c04Pattern) matches(c c04Cand, role string) bool {
 	if c.Form == "closure" {
 		ctx += "$1" // the call sits in the anonymous function
 	}
-	return m(p.Package, c.Pkg) && m(p.Method, c.Name) && m(p.Receiver, c.Recv) && m(p.Context, ctx)
+	return m(p.Package, c.Pkg) && m(p.Method, c.realName(role)) && m(p.Receiver, c.Recv) && m(p.Context, ctx)
 }
 
 func renderC04(cands []c04Cand) map[string]string {
@@ -170,7 +189,10 @@ func renderC04(cands []c04Cand) map[string]string {
 		al := pkgAlias(c.Pkg)
 		// declarations
 		if c.Recv == "" {
-			declare(c.Pkg, "f:"+c.Name, fmt.Sprintf("// %s is a candidate function.\nfunc %s(s string) string { return s }", c.Name, c.Name))
+			for _, role := range []string{"source", "sink"} {
+				nm := c.realName(role)
+				declare(c.Pkg, "f:"+nm, fmt.Sprintf("// %s is a candidate function.\nfunc %s(s string) string { return s }", nm, nm))
+			}
 		} else {
 			declare(c.Pkg, "t:"+c.Recv, fmt.Sprintf("// %s is a candidate receiver type.\ntype %s struct{ N int }", c.Recv, c.Recv))
 			star := ""
@@ -199,7 +221,7 @@ func renderC04(cands []c04Cand) map[string]string {
 				arg = "y"
 			}
 			var pre, call string
-			target := al + c.Name
+			target := al + c.realName(role)
 			if c.Recv != "" {
 				target = recvExpr + "." + c.Name
 			}
@@ -209,6 +231,15 @@ func renderC04(cands []c04Cand) map[string]string {
 			case "funcval":
 				pre = fmt.Sprintf("\tf := pick%d_%s(%s)\n", c.N, role, target)
 				tests.WriteString(fmt.Sprintf("func pick%d_%s(f func(string) string) func(string) string { return f }\n\n", c.N, role))
+				call = fmt.Sprintf("f(%s)", arg)
+			case "funcvalphiA":
+				// the function value may be a bound method of an unrelated type (a synthetic wrapper without package)
+				// or the candidate; bound method first
+				pre = fmt.Sprintf("\tbn := &Benign{}\n\tf := bn.Get\n\tif rt.Cond(0) {\n\t\tf = %s\n\t}\n", target)
+				call = fmt.Sprintf("f(%s)", arg)
+			case "funcvalphiB":
+				pre = fmt.Sprintf("\tbn := &Benign{}\n\tf := pickB%d_%s(%s)\n\tif rt.Cond(1) {\n\t\tf = bn.Get\n\t}\n", c.N, role, target)
+				tests.WriteString(fmt.Sprintf("func pickB%d_%s(f func(string) string) func(string) string { return f }\n\n", c.N, role))
 				call = fmt.Sprintf("f(%s)", arg)
 			case "closure":
 				call = fmt.Sprintf("func(a string) string { return %s(a) }(%s)", target, arg)
@@ -243,6 +274,7 @@ func renderC04(cands []c04Cand) map[string]string {
 	}
 	var m strings.Builder
 	m.WriteString("package main\n\nimport (\n\t\"vprog/lib\"\n\t\"vprog/lib/sub\"\n\t\"vprog/libx\"\n\t\"vprog/rt\"\n)\n\n")
+	m.WriteString("// Benign is an unrelated type whose bound method shares the candidates' signature.\ntype Benign struct{ p string }\n\n// Get is never a candidate.\nfunc (b *Benign) Get(s string) string { return b.p }\n\n")
 	m.WriteString(get("vprog").String())
 	m.WriteString(tests.String())
 	m.WriteString("var _ = lib.Fetch\nvar _ = sub.Fetch\nvar _ = libx.Fetch\n\nfunc main() {\n\tdefer rt.Done()\n")
@@ -377,13 +409,16 @@ func C04(tier string) {
 				map[bool]string{true: "is matched", false: "is not matched"}[want], map[bool]string{true: "identified", false: "did not identify"}[got]), fl)
 		}
 	}
+	fm, fu := c04Fields(run, tier)
+	run.Cov["field/alloc_obligations_expecting_identification"] = fm
+	run.Cov["field/alloc_obligations_expecting_no_identification"] = fu
 	run.Cov["candidates"] = len(cands)
 	run.Cov["patterns"] = len(pats)
 	run.Cov["obligations_expecting_identification"] = matched
 	run.Cov["obligations_expecting_no_identification"] = unmatched
 	run.Sample(map[string]any{"pattern": pats[1], "candidate": cands[0]})
 	run.Assumptions = append(run.Assumptions, "identification is observed through the tool's public output: a call is a source iff a flow reaches the probe sink placed after it, a sink iff the probe source placed before it reaches it",
-		"reference model: regexp.MatchString (unanchored) on the package path / name / receiver type name of the function actually called and on the enclosing function's full name; kinds type/field/store/channel-receive are not covered yet")
+		"reference model: regexp.MatchString (unanchored) on the package path / name / receiver type name of the function actually called and on the enclosing function's full name; field reads and allocations are covered by a second program (same oracle: identified IFF the identifier {package name of the declared type, type name with * for pointers, field name, enclosing function} matches), each configuration repeated; store and channel-receive kinds are not covered")
 	run.Finish("exploration", "cross product of candidate functions (4 package layouts x function/value-method/pointer-method/interface method x call forms direct, function value, closure, defer, method value, method expression, invoke) and specification patterns (anchored, unanchored, substring of a longer path, alternation, groups, character class, empty package, receiver, context), each as source and as sink, eager and on-demand; "+
 		"distinct non-trivial = (pattern, role, form, package, method?) combinations the reference model says match; oracle: identified IFF matched")
 }
